@@ -518,7 +518,53 @@ func Run(ctx *common.Ctx) int {
 		}
 		mEvals += int64(dMaurer.One(make([]bool, n), func() interface{} { return map[string]interface{}{"n": n, "constant": 0} }))
 	}
-	cmp.Count("Maurer: n=7(1280+K)+t, K=1..3, t=0..6, three initial segments x every K-letter word over six 7-bit letters; fillers at 8967, 8968, 20000, 10^6", mEvals)
+	// bursts of long distances: after a constant (or a two-letter) initial segment a run of L letters that were
+	// never seen before (distance = block index), then repeats with short distances, at several alignments of the
+	// burst (an accumulation in batches, a product instead of a sum, a narrow table type would show here only)
+	{
+		type burst struct{ init, L, lead, rep int }
+		var bs []burst
+		for _, init := range []int{0, 1} {
+			for _, L := range []int{16, 64, 100, 126} {
+				for _, lead := range []int{0, 1, 37, 99, 100} {
+					for _, rep := range []int{0, 67, 400} {
+						bs = append(bs, burst{init, L, lead, rep})
+					}
+				}
+			}
+		}
+		bs = append(bs, burst{2, 127, 8720, 500}) // late first occurrences: 10000 constant blocks, then every other letter once
+		var bEvals int64
+		common.ParFor(len(bs), func(i int) {
+			b := bs[i]
+			var letters []int
+			nInit := 1280
+			for k := 0; k < nInit; k++ {
+				letters = append(letters, []int{0, k % 2, 0}[b.init]) // constant 0 / alternating 0,1 / constant 0
+			}
+			for k := 0; k < b.lead; k++ {
+				letters = append(letters, 0)
+			}
+			for k := 0; k < b.L; k++ {
+				letters = append(letters, 2+k%126) // letters 2..127: never seen before
+			}
+			for k := 0; k < b.rep; k++ {
+				letters = append(letters, 2+(k*5)%7)
+			}
+			bits := make([]bool, 0, 7*len(letters)+3)
+			for _, l := range letters {
+				for j := 6; j >= 0; j-- {
+					bits = append(bits, l>>uint(j)&1 == 1)
+				}
+			}
+			bits = append(bits, true, false, true)
+			atomic.AddInt64(&bEvals, int64(dMaurer.One(bits, func() interface{} {
+				return map[string]interface{}{"blocks": len(letters), "initial_segment": []string{"constant 0", "alternating 0,1", "constant 0"}[b.init], "leading_zero_blocks": b.lead, "burst_of_new_letters": b.L, "repeats": b.rep}
+			})))
+		})
+		mEvals += bEvals
+	}
+	cmp.Count("Maurer: n=7(1280+K)+t, K=1..3, t=0..6, three initial segments x every K-letter word over six 7-bit letters; fillers at 8967, 8968, 20000, 10^6; bursts of 16..127 never-seen letters at five alignments after a constant / alternating initial segment", mEvals)
 	cmp.Sample(map[string]interface{}{"family": "Maurer", "example": "initial segment = constant block 5 (127 patterns never seen), test blocks [5 99 0]: distances 1, 1282 (never seen: table entry 0), 1283"})
 	// S2 on rank, LC(500), Maurer at their minimum lengths
 	specs := []e2.LenSpec{{N: 1024, MaxBase: 6}, {N: 1025, MaxBase: 4}, {N: 2048, MaxBase: 4}, {N: 8967, MaxBase: 4}, {N: 20000, MaxBase: 3}}
